@@ -6,6 +6,7 @@
 import Nlmodel.Model.Pipeline
 import Nlmodel.Proofs.Lemmas.ResolveHeap
 import Nlmodel.Proofs.Lemmas.ResolveFn
+import Nlmodel.Proofs.Lemmas.Resolve7Top
 namespace Nl
 namespace C09
 
@@ -104,6 +105,16 @@ theorem C09_slots_implement_binders_functions (ast : Block) (hs : SimF.SrcTop as
     (h : resolveProgram ast = .ok r) :
     ∃ Γ' D, SimF.YTop [] r 0 [] Γ' D ∧ D.Pairwise (fun x y => x.1 ≠ y.1) :=
   SimF.resolve_ytop ast hs r h
+
+/-- SLOTS IMPLEMENT BINDERS (R1) with function literals nested to any depth: for every source program of the syntactic class
+    `Sim7.S7Top` the resolver's output is well-scoped in the sense the stage-7 simulation consumes (`Sim7.ZTop7`): a body —
+    however deeply nested in other bodies — reads and writes its OWN parameters and locals (in its own frame slots) and
+    persistent globals, never a local of an enclosing or calling function; and the function ids of ALL literals are pairwise
+    distinct for EVERY program the resolver accepts -/
+theorem C09_slots_implement_binders_nested_functions (ast : Block) (hs : Sim7.S7Top ast) (r : RBlock)
+    (h : resolveProgram ast = .ok r) :
+    (∃ Γ', Sim7.ZTop7 [] r Γ') ∧ (Sim7.litsTop [] r 0 []).Pairwise (fun x y => x.1 ≠ y.1) :=
+  ⟨Sim7.resolve_ztop7 ast hs r h, Sim7.resolve_fids_distinct ast r h⟩
 
 /-- the same for the control-flow fragment over scalars (stage 3) -/
 theorem C09_slots_implement_binders_control_flow (ast : Block) (hs : Sim.SB false ast) (p : RBlock)
